@@ -495,6 +495,19 @@ theorem valCodec_roundtrip (v : Val) (p : Bytes) (hwf : Val.Wf v) (h : valCodec.
   | e => exact hwf.elim
   | t n => exact hwf.elim
 
+/-- A frame may hold more than its value's decoder consumes (`minicbor::decode` ignores what follows the item): the payload written for
+    `t n` — the number and one more item — is read back as the number. -/
+theorem valCodec_padded (n : Nat) (h : n < 18446744073709551616) (p : Bytes) (he : valCodec.enc (.t n) = .ok p) :
+    valCodec.dec p = .ok (.u n) := by
+  simp only [valCodec] at he
+  injection he with he; subst he
+  have := decVal_uint_head (prefWidth n) n [0x00] (prefWidth_fits n h)
+  rw [← u64_headW n h] at this
+  simp [valCodec, this]
+
+example : valCodec.enc (.t 300) = .ok [0x19, 0x01, 0x2c, 0x00] ∧ valCodec.dec [0x19, 0x01, 0x2c, 0x00] = .ok (.u 300) := by
+  constructor <;> rfl
+
 /-- non-vacuity: a two-frame stream, delivered one byte at a time with interruptions, read
     with `max_len` exactly the larger payload. -/
 example :
